@@ -163,6 +163,20 @@ def _body(cs, a, b, k, x):
             ok = fail("lru_cache:second-sequential-call-not-a-hit", (key,)) and ok
         if maxsize is None and (r2[0] != "ok" or r2[1] is not r1[1]):
             ok = fail("lru_cache:second-sequential-call-not-a-hit", (key,)) and ok
+    if maxsize == 2:
+        # least-recently-used order at quiescence: 0, 1, hit 0, new key -> 1 is evicted, 0 stays
+        cf.cache_clear()
+        D.call(cf(0))
+        D.call(cf(1))
+        D.call(cf(0))
+        D.call(cf(2))
+        n0 = len(invocations)
+        D.call(cf(0))
+        if len(invocations) != n0:
+            ok = fail("lru_cache:a-hit-does-not-refresh-recency-at-quiescence") and ok
+        D.call(cf(1))
+        if len(invocations) != n0 + 1:
+            ok = fail("lru_cache:eviction-order-wrong-at-quiescence") and ok
     cf.cache_clear()
     ic = cf.cache_info()
     if (ic.hits, ic.misses, ic.currsize) != (0, 0, 0):
